@@ -7,6 +7,8 @@ NOTES = (
 ENGINES = [
     {"name": "M0 program model", "path": "geolint/model.py", "serves_properties": [], "kind_free_text": "AST index: modules, imports, classes, C3 MRO, functions, name resolution"},
     {"name": "E2/E3/E4.V1 operator consistency", "path": "geolint/dunder.py", "serves_properties": ["C19"], "kind_free_text": "syntax-tree rules over super() sites, dunder returns, dispatch-table literals, constructor index-set discipline"},
+    {"name": "E6 kind closure", "path": "geolint/kinds.py", "serves_properties": ["C04", "C14", "C06"], "kind_free_text": "class-table rules: element-class registry, __getitem__ re-wrap by MRO, type(self)(...) reconstruction vs subclass constructors, __apply__ result kind and derived caches, np.empty buffer coverage"},
+    {"name": "E9 kind dispatch", "path": "geolint/dispatch.py", "serves_properties": ["C09"], "kind_free_text": "decision-list evaluation of isinstance dispatch over all ordered pairs of concrete kinds with static class hierarchy; reduction graph, cycles, documented pairs, kind-blind equality short-cut"},
 ]
 
 NA_COMMON = "value-level statement about floating-point results for all inputs; no shape-of-code clause that is a necessary condition and not a frozen fragment (DESIGN.md section 5)"
@@ -25,5 +27,29 @@ CHECKS = [
         "technique": "AST rules: super()-delegation agreement, reflected-operator operand order, operator presence by MRO, literal dispatch tables vs data-model oracle, constructor index-set abstract transfer",
         "text": "Structural clauses of C19 only: every arithmetic dunder falls through to the same operator of its base class, reflected dunders swap operands, every operator C19 names exists for every concrete tensor class, the ufunc->dunder tables and the dispatcher's operand/name choice agree with the Python data model, and arithmetic results are constructed with index sets the constructor interprets correctly for collections. Exhaustive over all super() sites, dunders, table entries and construction sites of the package. The numbers returned and the index mapping of __getitem__ for arbitrary numpy indices are NOT decided.",
         "note": "trusts: Python data model operator table, numpy ufunc names, recognised form of Tensor.__init__ (else UNDECIDED)",
+    },
+    {
+        "id": "C04", "engine": "E6 kind closure", "design_ref": "4 (E6 K1, K2, K5), 5 C04",
+        "technique": "class-table and AST rules: _element_class registry, MRO-resolved __getitem__ re-wrap and carried constructor attributes, np.empty buffer write coverage",
+        "text": "Structural part of C04's second sentence (indexing or iterating a collection yields the element class with its attributes intact): every concrete collection class registers an element class of its own family, its MRO-resolved __getitem__ re-wraps into that family and passes on constructor-parameter attributes (is_dual), __iter__ goes through self[i]; plus complete initialisation of np.empty buffers in vectorised branches. Exhaustive over the 7 collection classes and all np.empty buffers. Equality of vectorised and scalar branches and einsum alignment are NOT decided.",
+        "note": "trusts the class table built from the source; helper re-wraps are followed two calls deep, otherwise UNDECIDED",
+    },
+    {
+        "id": "C06", "engine": "E6 kind closure", "design_ref": "4 (E6 K3, K4), 5 C06",
+        "technique": "AST rules over every __apply__ implementation resolved by MRO for every concrete class; derived-cache attributes found by role (annotated tensor attribute assigned in __init__)",
+        "text": "Kind and cache clauses of C06 only: the result of every __apply__ is derived from self.copy()/super().__apply__ or a constructor of the receiver's family, the cached supporting line/plane of polytopes is re-assigned on the result for every concrete class, and the type(self)(...) reconstructions in inverse/__pow__ are accepted by every transformation class. Associativity, inverse, powers and identity are numeric and NOT decided; a wrong matrix order is invisible to this check.",
+        "note": "thin claim by design; trusts annotations `_line: LineTensor`, `_plane: PlaneTensor` to find the derived caches",
+    },
+    {
+        "id": "C09", "engine": "E9 kind dispatch", "design_ref": "4 (E9), 5 C09",
+        "technique": "abstract evaluation of the isinstance decision list of dist over all ordered pairs of concrete kinds; recursion followed through annotation-derived argument types; cycle detection",
+        "text": "Dispatch clauses of C09: over all ordered pairs of concrete kinds (361 today) the reduction of dist terminates, every kind pair C09 documents reaches a base formula in both argument orders (no TypeError branch, no cycle), and the == short-cut cannot fire for objects of different kinds while __eq__ is kind-blind. Exhaustive over the finite kind lattice. The values of the distance/angle formulas, branch cuts and invariance under isometries are NOT decided.",
+        "note": "trusts return annotations of project/base_point/vertices/edges/faces to type the arguments of recursive calls; unresolvable arguments give UNDECIDED",
+    },
+    {
+        "id": "C14", "engine": "E6 kind closure", "design_ref": "4 (E6 K3), 5 C14",
+        "technique": "constructor-signature compatibility of type(self)(...) / class-valued-local reconstruction sites against the __init__ of every inheriting concrete subclass",
+        "text": "One clause of C14: 'dual ... works for every quadric class' - the object construction inside QuadricTensor.dual (and therefore is_tangent) is accepted by the constructor that is actually selected for every concrete quadric subclass (Circle, Ellipse, Sphere, Cone, Cylinder, Conic, Quadric, QuadricCollection). All numeric clauses (intersection points, tangency, pole/polar reciprocity, involution) are NOT decided.",
+        "note": "parameter annotations of the subclass constructors are the oracle for 'accepts an ndarray'",
     },
 ]
